@@ -73,6 +73,45 @@ class UnitResult(object):
         self.bounded = None
 
 
+def _shallow(v):
+    """Identity-level picture of a container: enough to see insertions, removals and replacements (the elements may be
+    symbolic or unhashable, so no deep comparison)."""
+    try:
+        if isinstance(v, dict):
+            return ('dict', tuple((repr(k) if not isinstance(k, (int, str, type)) else k, id(x)) for k, x in list(v.items())))
+        if isinstance(v, (set, frozenset)):
+            return ('set', tuple(sorted(id(x) for x in list(v))))
+        if isinstance(v, list):
+            return ('list', tuple(id(x) for x in list(v)))
+    except Exception:       # noqa
+        return ('?', id(v))
+    return None
+
+
+def library_state():
+    """Shared mutable state of the library: every dict / set / list bound at module level or at class level in a module of
+    the package under verification.  A function under contract that changes any of it carries state from one call to the
+    next (a cache, a registry, a table mutated in place) - outside the frame of every contract except initglobals'."""
+    snap = {}
+    for name, mod in list(sys.modules.items()):
+        if mod is None or not (name == 'minecraft' or name.startswith('minecraft.')):
+            continue
+        for k, v in list(vars(mod).items()):
+            if k.startswith('__'):
+                continue
+            sh = _shallow(v)
+            if sh is not None:
+                snap['%s.%s' % (name, k)] = sh
+            elif isinstance(v, type) and getattr(v, '__module__', None) == name:
+                for ck, cv in list(vars(v).items()):
+                    if ck.startswith('__'):
+                        continue
+                    sh = _shallow(cv)
+                    if sh is not None:
+                        snap['%s.%s.%s' % (name, v.__qualname__, ck)] = sh
+    return snap
+
+
 def run_unit(unit, tier, seed):
     res = UnitResult(unit)
     t0 = time.time()
@@ -96,9 +135,23 @@ def run_unit(unit, tier, seed):
         res.functions_seen, res.solver_time, res.queries, res.hashes, res.conformance = {}, 0.0, 0, I.index.hashes(), 0
         res.wall = time.time() - t0
         return res
+    state0 = library_state()
+
+    def one_path(_E):
+        I.tracked_frames = []
+        out = unit.run(I)
+        # frame condition of everything that is GIVEN a context: the context is an input, not a place to keep state
+        # (seeded change C04-r9: the layout decision memoised on the ConnectionContext, which reconnects mutate in place)
+        for what, obj, before in I.tracked_frames:
+            now = dict(vars(obj))
+            same = set(now) == set(before) and all(now[k] is before[k] for k in before)
+            E.check('frame.%s-unchanged' % what, same, kind='frame',
+                    note='the code under contract wrote %s on the %s it was given: state carried from one call to the next'
+                         % (sorted(set(now) ^ set(before)) or sorted(k for k in before if k in now and now[k] is not before[k]), what))
+        return out
     try:
         unit.setup(I)
-        E.explore(lambda _E: unit.run(I), on_path=lambda _E, rec: unit.on_path(I, rec))
+        E.explore(one_path, on_path=lambda _E, rec: unit.on_path(I, rec))
     except Unsupported as e:
         res.undecided.append('unsupported: %s' % e)
         if os.environ.get('VERIF_DEBUG'):
@@ -109,6 +162,15 @@ def run_unit(unit, tier, seed):
         res.errors.append('uncaught program exception escaped the unit harness: %r' % (e.exc,))
     except Exception as e:
         res.errors.append('checker crash: %s\n%s' % (e, traceback.format_exc()))
+    if not getattr(unit, 'modifies_library_state', False) and not res.errors:
+        state1 = library_state()
+        changed = sorted(k for k in set(state0) | set(state1) if state0.get(k) != state1.get(k))
+        from .engine import Obligation
+        E.obligations.append(Obligation(unit.name, 'frame.library-state-unchanged', 0, FAILED if changed else DISCHARGED,
+                                        'runtime-frame', 0.0, kind='frame',
+                                        note=('shared module- / class-level state changed while the functions under contract '
+                                              'ran: %s' % ', '.join(changed[:6])) if changed else
+                                        'no module- or class-level container of the library was mutated by the functions under contract'))
     res.obligations = E.obligations
     res.paths = len(E.paths)
     res.notes = sorted(set(E.notes))
@@ -368,6 +430,14 @@ def run_property(pid, tier='quick', seed=0, only=None, jobs=None):
                     continue
                 seen_fail.add(dedup)
                 rp0 = o.get('replay') or {}
+                if o['kind'] == 'frame' and not rp0.get('confirmed'):
+                    # A frame obligation (the code wrote state it was only given to read) that fails WITHOUT a failing
+                    # input: a cache may be perfectly correct - the contracts just cannot see whether it is invalidated
+                    # when it must be.  Undecided, and the bounded part (which replays histories) decides.
+                    undecided.append('%s: %s: frame condition not discharged and no failing input found (%s)'
+                                     % (name, o['label'], (o.get('note') or '')[:160]))
+                    n_obl -= 1
+                    continue
                 if o['kind'] == 'loop' and not rp0.get('confirmed'):
                     # An auxiliary loop obligation (invariant at entry / preserved / variant) that fails WITHOUT a failing
                     # input of the real code means "this invariant is not inductive for this code" - the contract does not
